@@ -48,11 +48,15 @@ CONSTANTS Node,          \* node ids
           G_LeaderOwnTerm, G_MajorityOfVoters, G_FlushBeforeAck, G_LeaderFlush,
           G_StaleTermAppend,
           Reduce,        \* state-space reduction: replies that cannot change their receiver are not sent
+          SegSize, UpdBytes,   \* log segment size and update payload size in bytes (segment roll-over points)
+          MaxSnaps,      \* number of TakeSnapshot requests (model bound)
           MaxRoundOrd,   \* cap for promotion round ordinals (model bound)
           RoundFastSet,  \* {TRUE} or BOOLEAN: may a promotion round be slower than PromoteThreshold
           MaxCfgReqs,    \* number of ChangeConfig requests (model bound)
           EdAddPromote, EdAddNonvoter, EdPromote, EdDemote, EdRemove, EdForceRemove,  \* node sets: the user edits a ChangeConfig request may combine
           G_ConfigCommittedFirst, G_OwnTermBeforeConfig, G_PromoteAfterRound, G_NonVoterNoElection, G_StepDownWhenDemoted,
+          FixD4,         \* TRUE = snapshot labelled with the configuration in force at the snapshot index (repaired)
+          FixD5,         \* TRUE = onSnapshotTaken keeps leader.removeLTE >= log.PrevIndex (repaired)
           FixD2,         \* TRUE = leader.changeConfig caches numVoters of the NEW configuration (repaired)
           KeepHist,      \* record the sequence of events in `hist` (schedule export)
           FixD1          \* TRUE = onVoteRequest as repaired (requests from the known leader take the normal path)
@@ -75,7 +79,9 @@ EmptyCfg == [index |-> 0, term |-> 0, nodes |-> << >>]
 InitNodes == [i \in InitVoters \cup InitNonvoters |-> [voter |-> i \in InitVoters, action |-> "none"]]
 InitCfg  == [index |-> 1, term |-> 1, nodes |-> InitNodes]
 CfgEntry(cfg) == [t |-> cfg.term, y |-> "cfg", v |-> 0, c |-> cfg.nodes]
-NoLu == [on |-> FALSE, vprev |-> 0, vlast |-> 0, commit |-> 0, cfg |-> FALSE]
+NoLu == [on |-> FALSE, vprev |-> 0, vlast |-> 0, commit |-> 0, cfg |-> FALSE, nil |-> FALSE]
+\* the snapshot goroutine (fsm.go onTakeSnapshot / doTakeSnapshot): idle -> start -> asked -> got|err -> stored
+NoSnapG == [pc |-> "idle", target |-> 0, cfg |-> EmptyCfg, idx |-> 0, term |-> 0, cmds |-> << >>, err |-> "", task |-> 0]
 NoXfer == [on |-> FALSE, term |-> 0, target |-> None, task |-> 0]
 NoLdr == [on |-> FALSE, start |-> 0, numVoters |-> 0, selfVoter |-> FALSE, removeLTE |-> 0,
           neQ |-> << >>, replQ |-> << >>, repl |-> << >>, xfer |-> NoXfer]
@@ -85,12 +91,12 @@ InitNode(n) ==
     [id |-> n, up |-> TRUE, inc |-> 1, died |-> "",
      term |-> IF member THEN 1 ELSE 0, vote |-> None, dterm |-> IF member THEN 1 ELSE 0, dvote |-> None,
      state |-> "F", cur |-> "F", leader |-> None, commit |-> 0,
-     logPrev |-> 0, log |-> IF member THEN <<CfgEntry(InitCfg)>> ELSE << >>, synced |-> IF member THEN 1 ELSE 0,
+     logPrev |-> 0, log |-> IF member THEN <<CfgEntry(InitCfg)>> ELSE << >>, synced |-> IF member THEN 1 ELSE 0, bnds |-> {0},
      snapIdx |-> 0, snapTerm |-> 0, snapCfg |-> EmptyCfg, snapCmds |-> << >>,
      cfgC |-> EmptyCfg, cfgL |-> IF member THEN InitCfg ELSE EmptyCfg,
      aborted |-> FALSE, votesNeeded |-> 0, selfVote |-> FALSE, cndTransfer |-> FALSE,
      fsmIdx |-> 0, fsmTerm |-> 0, fsmCmds |-> << >>, fsmQ |-> << >>,
-     ldr |-> NoLdr, outbox |-> {}, done |-> << >>, closed |-> FALSE, acts |-> {}]
+     ldr |-> NoLdr, outbox |-> {}, done |-> << >>, closed |-> FALSE, acts |-> {}, snapG |-> NoSnapG]
 
 --------------------------------------------------------------------------
 (* storage.go / value.go                                                   *)
@@ -103,10 +109,32 @@ SetVotedFor(s, t, c) ==
     THEN IF G_PersistVote THEN [s EXCEPT !.term = t, !.vote = c, !.dterm = t, !.dvote = c]
                           ELSE [s EXCEPT !.term = t, !.vote = c]
     ELSE s
-AppendEntry(s, e) == [s EXCEPT !.log = Append(@, e)]
-\* removeGTE(i): the log package commits, then lowers the header: the shorter log is durable
-RemoveGTE(s, i) == [s EXCEPT !.log = SubSeq(@, 1, i - 1 - s.logPrev), !.synced = i - 1]
-CommitLog(s) == [s EXCEPT !.synced = Last(s)]
+\* ---- log/ : the segmented log as far as raft depends on it. bnds = prevIndex of every segment file
+\* (Min = logPrev). Sizes in bytes as encoded by messages.go entry.encode / config.go Config.encode;
+\* a segment of SegSize bytes keeps an 8-byte slot per entry plus 24 bytes of header (log/segment.go available()).
+EntrySize(e) == 21 + (IF e.y = "upd" THEN UpdBytes ELSE IF e.y = "cfg" THEN 4 + 25 * Cardinality(DOMAIN e.c) ELSE 0)
+LastSegPrev(s) == SetMax(s.bnds)
+RECURSIVE SumSizes(_, _, _)
+SumSizes(s, from, to) == IF from > to THEN 0 ELSE EntrySize(EntryAt(s, from)) + SumSizes(s, from + 1, to)
+Available(s) == LET p == LastSegPrev(s) IN (SegSize - 24) - 8 * (Last(s) - p) - SumSizes(s, p + 1, Last(s))
+\* log.Append: roll over (after committing the full segment) when the entry does not fit
+AppendEntry(s, e) ==
+    IF Available(s) < EntrySize(e) /\ Last(s) > LastSegPrev(s)
+    THEN [s EXCEPT !.log = Append(@, e), !.bnds = @ \cup {Last(s)}, !.synced = Last(s)]
+    ELSE [s EXCEPT !.log = Append(@, e)]
+\* removeGTE(i): the log package commits, drops whole segments from the back, lowers the header: the shorter log is durable
+RemoveGTE(s, i) ==
+    LET keep == {b \in s.bnds : b < i - 1}
+    IN [s EXCEPT !.log = SubSeq(@, 1, i - 1 - s.logPrev), !.synced = i - 1,
+                 !.bnds = IF keep = {} THEN {i - 1} ELSE keep]
+\* log.CommitN(n): only the last segment can be dirty; it is flushed iff it starts below n
+CommitLogN(s, n) == IF LastSegPrev(s) < n THEN [s EXCEPT !.synced = Last(s)] ELSE s
+CommitLog(s) == CommitLogN(s, Last(s))
+\* log.CanLTE / RemoveLTE: whole segments only, never the last one
+CanLTE(s, i) == SetMax({b \in s.bnds : b <= i \/ b = s.logPrev})
+CompactLog(s, lte) ==
+    LET p == CanLTE(s, lte) IN
+    [s EXCEPT !.log = SubSeq(@, p - s.logPrev + 1, Len(@)), !.logPrev = p, !.bnds = {b \in @ : b >= p}, !.synced = Max(@, Last(s))]
 
 --------------------------------------------------------------------------
 (* config.go: Raft.changeConfig / commitConfig / revertConfig / setCommitIndex *)
@@ -180,13 +208,14 @@ NewRepl(s, j) ==
      vprev |-> s.ldr.removeLTE, vlast |-> Last(s), rcommit |-> s.commit,
      voter |-> IsVoter(s.cfgL, j), mode |-> "probe", up |-> FALSE, failures |-> 0,
      reqs |-> << >>, resps |-> << >>, canWrite |-> FALSE, lu |-> NoLu, ended |-> FALSE, term |-> s.term,
-     round |-> NoRound]
+     round |-> NoRound, pdead |-> FALSE, srem |-> s.ldr.removeLTE, vnil |-> s.ldr.removeLTE < s.logPrev, snapWait |-> FALSE]
 
 \* leader.notifyFlr: newest update wins (1-slot channel)
 NotifyFlr(s, inclCfg) ==
     [s EXCEPT !.ldr.repl = [j \in DOMAIN s.ldr.repl |->
+        \* log.ViewAt(removeLTE, last) returns nil when removeLTE < PrevIndex (the update then carries a nil view)
         [s.ldr.repl[j] EXCEPT !.lu = [on |-> TRUE, vprev |-> s.ldr.removeLTE, vlast |-> Last(s), commit |-> s.commit,
-                                      cfg |-> inclCfg]]]]
+                                      cfg |-> inclCfg, nil |-> s.ldr.removeLTE < s.logPrev]]]]
 
 \* leader.majorityMatchIndex (numVoters and selfVoter are the leader's CACHED values)
 MajorityMatchIndex(s) ==
@@ -259,7 +288,7 @@ CheckConfigActions(s, nodes, task) ==
             ELSE IF act \in {"remove", "forceRemove"}
             THEN LET nn == Without(nodes, s.id)
                  IN CheckFollowers(DoChangeConfig(s, nn, task), nn, task, 1)
-            ELSE [s EXCEPT !.died = "unreachable: promote on self"]
+            ELSE [s EXCEPT !.died = "raft"]
        ELSE CheckFollowers(s, nodes, task, 1)
 
 \* `for _, repl := range l.repls { l.checkConfigAction(t, config, &repl.status) }` in the order s.ord
@@ -304,7 +333,7 @@ CheckConfigAction(s, nodes, j, task) ==
 \* config.go leader.setCommitIndex: flush, advance, config bookkeeping
 \* (CommitN flushes the whole last segment: everything appended so far becomes durable)
 SetCommitIndexL(s, idx) ==
-    LET s0 == IF G_LeaderFlush THEN CommitLog(s) ELSE s
+    LET s0 == IF G_LeaderFlush THEN CommitLogN(s, idx) ELSE s
         s1 == [s0 EXCEPT !.acts = @ \cup {[kind |-> "commit", n |-> s.id, index |-> idx, voters |-> Voters(s.cfgL.nodes)]}]
         committedNow == ~IsCommitted(s1) /\ s1.cfgL.index <= idx
         s2 == SetCommitIndexR(s1, idx)
@@ -344,25 +373,31 @@ CheckQuorum(s) ==
        ELSE [s EXCEPT !.state = "F", !.leader = None]
 
 \* leader.checkReplUpdates: drain the queue
-RECURSIVE DrainReplQ(_, _, _)
-DrainReplQ(s, mU, nU) ==
+\* leader.checkLogCompact: compact to removeLTE once every replication has moved its view past it
+CheckLogCompact(s) ==
+    IF \A j \in DOMAIN s.ldr.repl : s.ldr.repl[j].srem >= s.ldr.removeLTE THEN CompactLog(s, s.ldr.removeLTE) ELSE s
+RECURSIVE DrainReplQ(_, _, _, _)
+DrainReplQ(s, mU, nU, rU) ==
     IF s.ldr.replQ = << >> THEN
         LET s1 == IF mU THEN OnMajorityCommit(s) ELSE s
             s2 == IF nU THEN CheckQuorum(s1) ELSE s1
-        IN s2
+            s3 == IF rU /\ s2.ldr.on /\ s2.ldr.removeLTE > s2.logPrev THEN CheckLogCompact(s2) ELSE s2
+        IN s3
     ELSE LET u == Head(s.ldr.replQ)
              s0 == [s EXCEPT !.ldr.replQ = Tail(@)]
-         IN IF u.j \notin DOMAIN s0.ldr.repl THEN DrainReplQ(s0, mU, nU)
+         IN IF u.j \notin DOMAIN s0.ldr.repl THEN DrainReplQ(s0, mU, nU, rU)
             ELSE IF u.kind = "match"
                  THEN LET s1 == [s0 EXCEPT !.ldr.repl[u.j].match = u.val]
                           nd == IF u.j \in DOMAIN s1.cfgL.nodes THEN s1.cfgL.nodes[u.j] ELSE [voter |-> FALSE, action |-> "none"]
                           \* status.node is the node as of the last leader.changeConfig = cfgL
                           s2 == IF ~nd.voter /\ nd.action # "none" THEN CheckConfigAction(s1, s1.cfgL.nodes, u.j, 0) ELSE s1
-                      IN DrainReplQ(s2, TRUE, nU)
-            ELSE IF u.kind = "noContact" THEN DrainReplQ([s0 EXCEPT !.ldr.repl[u.j].noContact = u.val], mU, TRUE)
+                      IN DrainReplQ(s2, TRUE, nU, rU)
+            ELSE IF u.kind = "noContact" THEN DrainReplQ([s0 EXCEPT !.ldr.repl[u.j].noContact = u.val], mU, TRUE, rU)
+            ELSE IF u.kind = "removeLTE" THEN DrainReplQ([s0 EXCEPT !.ldr.repl[u.j].srem = u.val], mU, nU, TRUE)
+            ELSE IF u.kind = "died" THEN [s0 EXCEPT !.died = u.val]
             ELSE IF u.kind = "newTerm" THEN SetTerm([s0 EXCEPT !.state = "F", !.leader = None], u.val)
-            ELSE DrainReplQ(s0, mU, nU)
-CheckReplUpdates(s) == IF s.ldr.on /\ s.ldr.replQ # << >> THEN DrainReplQ(s, FALSE, FALSE) ELSE s
+            ELSE DrainReplQ(s0, mU, nU, rU)
+CheckReplUpdates(s) == IF s.ldr.on /\ s.ldr.replQ # << >> THEN DrainReplQ(s, FALSE, FALSE, FALSE) ELSE s
 
 \* changeconfig.go onChangeConfig (user request: the complete new node map)
 ValidNode(n) == ~(n.action = "promote" /\ n.voter) /\ ~(n.action = "demote" /\ ~n.voter)
@@ -393,7 +428,7 @@ Stopped(s) ==
     [s EXCEPT !.up = FALSE, !.state = "D", !.cur = "D", !.leader = None, !.commit = 0,
               !.log = SubSeq(@, 1, s.synced - s.logPrev), !.term = s.dterm, !.vote = s.dvote,
               !.aborted = FALSE, !.votesNeeded = 0, !.selfVote = FALSE, !.cndTransfer = FALSE,
-              !.fsmIdx = 0, !.fsmTerm = 0, !.fsmCmds = << >>, !.fsmQ = << >>, !.ldr = NoLdr, !.closed = FALSE]
+              !.fsmIdx = 0, !.fsmTerm = 0, !.fsmCmds = << >>, !.fsmQ = << >>, !.ldr = NoLdr, !.closed = FALSE, !.snapG = NoSnapG]
 RECURSIVE Post(_)
 Post(s) == IF s.closed THEN Stopped(Release(s, s.cur))
            ELSE IF s.state = s.cur THEN s
@@ -406,7 +441,7 @@ RECURSIVE ApplyLog(_, _)
 ApplyLog(s, upto) ==
     IF s.fsmIdx >= upto THEN s
     ELSE LET i == s.fsmIdx + 1 IN
-         IF ~HasIdx(s, i) THEN [s EXCEPT !.died = "fsm: entry not found"]
+         IF ~HasIdx(s, i) THEN [s EXCEPT !.died = "fsm"]
          ELSE LET e == EntryAt(s, i)
               IN ApplyLog([s EXCEPT !.fsmIdx = i, !.fsmTerm = e.t,
                                     !.fsmCmds = IF e.y = "upd" THEN Append(@, e.v) ELSE @], upto)
@@ -414,7 +449,7 @@ RECURSIVE ApplyItems(_, _)
 ApplyItems(s, items) ==
     IF items = << >> THEN s
     ELSE LET it == Head(items) IN
-         IF it.log /\ it.i # s.fsmIdx + 1 THEN [s EXCEPT !.died = "fsm: assertion"]
+         IF it.log /\ it.i # s.fsmIdx + 1 THEN [s EXCEPT !.died = "fsm"]
          ELSE LET s1 == IF it.y = "upd" THEN [s EXCEPT !.fsmCmds = Append(@, it.v)] ELSE s
                   s2 == IF it.log THEN [s1 EXCEPT !.fsmIdx = it.i, !.fsmTerm = s.term] ELSE s1
                   s3 == IF it.task # 0 THEN [s2 EXCEPT !.done = Append(@, [task |-> it.task, res |-> "ok", pos |-> Len(s1.fsmCmds)])] ELSE s2
@@ -427,7 +462,14 @@ FsmItem(s) ==
                 s1 == ApplyLog(s0, front - 1)
             IN IF s1.died # "" THEN s1
                ELSE LET s2 == ApplyItems(s1, it.items)
-                    IN IF s2.died = "" /\ s2.fsmIdx # it.upto THEN [s2 EXCEPT !.died = "fsm: assertion"] ELSE s2
+                    IN IF s2.died = "" /\ s2.fsmIdx # it.upto THEN [s2 EXCEPT !.died = "fsm"] ELSE s2
+       ELSE IF it.kind = "snapReq"
+       THEN \* fsm.go onSnapReq: answers at the index the FSM has applied NOW
+            IF s0.fsmIdx = s0.snapIdx THEN [s0 EXCEPT !.snapG.pc = "err", !.snapG.err = "noUpdates"]
+            ELSE IF s0.fsmIdx < it.target THEN [s0 EXCEPT !.snapG.pc = "err", !.snapG.err = "snapshotThreshold"]
+            ELSE [s0 EXCEPT !.snapG.pc = "got", !.snapG.idx = s0.fsmIdx, !.snapG.term = s0.fsmTerm, !.snapG.cmds = s0.fsmCmds]
+       ELSE IF it.kind = "restore"
+       THEN [s0 EXCEPT !.fsmIdx = s0.snapIdx, !.fsmTerm = s0.snapTerm, !.fsmCmds = s0.snapCmds]
        ELSE s0
 RECURSIVE FsmDrain(_)
 FsmDrain(s) == IF s.up /\ s.died = "" /\ s.fsmQ # << >> THEN FsmDrain(FsmItem(s)) ELSE s
@@ -489,6 +531,18 @@ OnAppendEntriesRequest(s, req) ==
                       ELSE c.s
             IN [s |-> s3, result |-> "success"]
 
+\* onInstallSnapRequest: publish the snapshot, then either keep the matching log suffix or discard the log and restore the FSM
+OnInstallSnapRequest(s, req) ==
+    IF G_StaleTermAppend /\ req.term < s.term THEN [s |-> s, result |-> "staleTerm"]
+    ELSE
+    LET s1 == [SetTerm(s, Max(req.term, s.term)) EXCEPT !.state = "F", !.leader = req.src]
+        s2 == [s1 EXCEPT !.snapIdx = req.idx, !.snapTerm = req.sterm, !.snapCfg = req.cfg, !.snapCmds = req.cmds]
+    IN IF HasIdx(s2, req.idx) /\ TermAt(s2, req.idx) = req.sterm
+       THEN [s |-> CompactLog(s2, req.idx), result |-> "success"]
+       ELSE LET s3 == [s2 EXCEPT !.log = << >>, !.logPrev = req.idx, !.bnds = {req.idx}, !.synced = req.idx,
+                                 !.fsmQ = Append(@, [kind |-> "restore"]), !.commit = req.idx]
+            IN [s |-> CommitConfig(ChangeConfig(s3, req.cfg)), result |-> "success"]
+
 --------------------------------------------------------------------------
 (* replication.go (one process per leader i and follower j)                *)
 
@@ -500,6 +554,7 @@ MaybeLdrUpdates(s) == IF EagerLdr THEN CheckReplUpdates(s) ELSE s
 Poll(s, j) ==
     LET r == Repl(s, j) IN
     IF ~r.lu.on THEN s
+    ELSE IF r.lu.nil THEN [s EXCEPT !.died = "replication"]
     ELSE LET s1 == IF r.lu.vprev > r.vprev THEN NotifyLdr(s, [j |-> j, kind |-> "removeLTE", val |-> r.lu.vprev]) ELSE s
          IN [s1 EXCEPT !.ldr.repl[j].vprev = r.lu.vprev, !.ldr.repl[j].vlast = r.lu.vlast,
                        !.ldr.repl[j].rcommit = r.lu.commit,
@@ -515,20 +570,58 @@ ReplFailed(s, j) ==
                         !.ldr.repl[j].mode = "probe", !.ldr.repl[j].failures = r.failures + 1]
     IN IF r.failures = 0 THEN NotifyNoContact(s1, j, TRUE) ELSE s1
 
-AppendReqMsg(s, j, withEntries) ==
+\* reading index i through the replication's log view: the view thinks it holds (vprev, vlast]; indexes the
+\* leader compacted away meanwhile are in segments that were unmapped and unlinked (nil dereference)
+ViewRead(s, r, i) == IF r.vnil THEN "nil" ELSE IF i <= r.vprev THEN "notFound" ELSE IF i <= s.logPrev THEN "gone" ELSE "ok"
+
+SnapReqMsg(s, j) == [kind |-> "snap", term |-> Repl(s, j).term, src |-> s.id, prev |-> 0, prevTerm |-> 0, ents |-> << >>, commit |-> 0,
+                     reqLast |-> s.snapIdx, idx |-> s.snapIdx, sterm |-> s.snapTerm, cfg |-> s.snapCfg, cmds |-> s.snapCmds]
+
+\* one write by the replication goroutine on an established connection:
+\* writeAppendEntriesReq (probe: no entries; pipeline: entries from the view) or, when the needed entry is
+\* no longer in the view (log.ErrNotFound), sendInstallSnapReq
+ReplWrite(s, j) ==
     LET r    == Repl(s, j)
         prev == r.next - 1
-        n    == IF withEntries THEN Min(r.vlast - prev, MaxAppend) ELSE 0
-    IN [kind |-> "append", term |-> r.term, src |-> s.id, prev |-> prev, prevTerm |-> TermAt(s, prev),
-        ents |-> [k \in 1..n |-> EntryAt(s, prev + k)], commit |-> r.rcommit, reqLast |-> prev + n]
+        pst  == IF prev # 0 /\ prev # s.snapIdx THEN ViewRead(s, r, prev) ELSE "ok"
+        pipe == r.mode = "pipe"
+        n    == IF pipe THEN Min(r.vlast - prev, MaxAppend) ELSE 0
+        cst  == IF n > 0 THEN (IF r.vnil THEN "nil" ELSE IF r.next <= r.vprev THEN "notFound" ELSE IF r.next <= s.logPrev THEN "gone" ELSE "ok") ELSE "ok"
+    IN IF pst \in {"nil", "gone"} \/ (pst = "ok" /\ cst \in {"nil", "gone"})
+       THEN [s |-> [s EXCEPT !.died = "replication"], kind |-> "died"]
+       ELSE IF pst = "notFound" \/ cst = "notFound"
+       THEN IF pipe
+            THEN \* the pipeline writer returns ErrNotFound: pipeline ends, responses are drained, replicate() probes again
+                 [s |-> [s EXCEPT !.ldr.repl[j].mode = IF Len(r.reqs) + Len(r.resps) = 0 THEN "probe" ELSE "drain"], kind |-> "needSnap"]
+            ELSE [s |-> [s EXCEPT !.ldr.repl[j].reqs = Append(@, SnapReqMsg(s, j)), !.ldr.repl[j].mode = "snap"], kind |-> "snap"]
+       ELSE LET req == [kind |-> "append", term |-> r.term, src |-> s.id, prev |-> prev,
+                        prevTerm |-> IF prev = 0 THEN 0 ELSE IF prev = s.snapIdx THEN s.snapTerm ELSE TermAt(s, prev),
+                        ents |-> [k \in 1..n |-> EntryAt(s, prev + k)], commit |-> r.rcommit, reqLast |-> prev + n]
+            IN [s |-> [s EXCEPT !.ldr.repl[j].reqs = Append(@, req), !.ldr.repl[j].next = prev + n + 1, !.ldr.repl[j].canWrite = FALSE],
+                kind |-> "req", req |-> req]
+WriteEv(w, i, j, mode) ==
+    IF w.kind = "req" THEN [kind |-> "replSend", i |-> i, j |-> j, mode |-> mode,
+                            req |-> [term |-> w.req.term, prev |-> w.req.prev, prevTerm |-> w.req.prevTerm, n |-> Len(w.req.ents), commit |-> w.req.commit]]
+    ELSE IF w.kind = "snap" THEN [kind |-> "replSend", i |-> i, j |-> j, needSnap |-> TRUE, snapIndex |-> w.s.snapIdx]
+    ELSE IF w.kind = "needSnap" THEN [kind |-> "replSend", i |-> i, j |-> j, needSnap |-> TRUE]
+    ELSE [kind |-> "replSend", i |-> i, j |-> j, died |-> TRUE]
 
 --------------------------------------------------------------------------
 (* Actions                                                                 *)
 
 Up(n) == node[n].up /\ node[n].died = ""
 
+\* process kill: volatile state is gone, the unflushed log tail is gone
+Crashed(s) ==
+    [s EXCEPT !.up = FALSE, !.state = "D", !.cur = "D", !.leader = None, !.commit = 0,
+              !.log = SubSeq(@, 1, s.synced - s.logPrev), !.term = s.dterm, !.vote = s.dvote,
+              !.aborted = FALSE, !.votesNeeded = 0, !.selfVote = FALSE, !.cndTransfer = FALSE,
+              !.fsmIdx = 0, !.fsmTerm = 0, !.fsmCmds = << >>, !.fsmQ = << >>, !.ldr = NoLdr, !.outbox = {}, !.done = << >>, !.snapG = NoSnapG]
+
 \* flush a node's outbox into the network, its done-list into the event, and (eager) its FSM queue
-SettleNode(s0) == LET s == IF EagerFsm THEN FsmDrain(s0) ELSE s0
+\* (a node whose handler, FSM or replication goroutine hit an assertion / nil dereference is a dead process)
+SettleNode(s0) == LET s1 == IF EagerFsm THEN FsmDrain(s0) ELSE s0
+                      s  == IF s1.died # "" /\ s1.up THEN [Crashed(s1) EXCEPT !.died = s1.died] ELSE s1
                   IN [s EXCEPT !.outbox = {}, !.done = << >>, !.acts = {}]
 \* requests written on connections whose replication no longer exists (leader stepped down, follower removed).
 \* orph is a SEQUENCE (a bag would do): two abandoned connections may carry identical requests.
@@ -654,52 +747,45 @@ ReplSend(i, j) ==
                     IN Commit([node EXCEPT ![i] = Post(MaybeLdrUpdates(s2))], rpcs, orph,
                               [kind |-> "replSend", i |-> i, j |-> j, connect |-> "failed"])
                ELSE LET t1 == Post(Identity(node[j], i))
-                        s1 == [sp EXCEPT !.ldr.repl[j].up = TRUE, !.ldr.repl[j].mode = "probe", !.ldr.repl[j].failures = 0]
+                        s1 == [sp EXCEPT !.ldr.repl[j].up = TRUE, !.ldr.repl[j].mode = "probe", !.ldr.repl[j].failures = 0, !.ldr.repl[j].pdead = FALSE]
                         s2 == IF r.failures > 0 THEN Poll(NotifyNoContact(s1, j, FALSE), j) ELSE s1
                         s3 == IF EagerPoll THEN Poll(s2, j) ELSE s2
-                        req == AppendReqMsg(s3, j, FALSE)
-                        s4 == [s3 EXCEPT !.ldr.repl[j].reqs = <<req>>]
-                    IN Commit([node EXCEPT ![i] = Post(MaybeLdrUpdates(s4)), ![j] = t1], rpcs, orph,
-                              [kind |-> "replSend", i |-> i, j |-> j, connect |-> "ok", mode |-> "probe",
-                               req |-> [term |-> req.term, prev |-> req.prev, prevTerm |-> req.prevTerm, n |-> 0, commit |-> req.commit]])
+                        w  == IF s3.died # "" THEN [s |-> s3, kind |-> "died"] ELSE ReplWrite(s3, j)
+                    IN Commit([node EXCEPT ![i] = Post(MaybeLdrUpdates(w.s)), ![j] = t1], rpcs, orph,
+                              WriteEv(w, i, j, "probe") @@ [connect |-> "ok"])
           ELSE LET s1 == IF EagerPoll THEN Poll(s, j) ELSE s
                    r1 == Repl(s1, j)
-               IN \/ /\ r1.mode = "probe" /\ r1.reqs = << >> /\ r1.resps = << >>
-                     /\ LET req == AppendReqMsg(s1, j, FALSE)
-                            s2 == [s1 EXCEPT !.ldr.repl[j].reqs = <<req>>]
-                        IN Commit([node EXCEPT ![i] = Post(MaybeLdrUpdates(s2))], rpcs, orph,
-                                  [kind |-> "replSend", i |-> i, j |-> j, mode |-> "probe",
-                                   req |-> [term |-> req.term, prev |-> req.prev, prevTerm |-> req.prevTerm, n |-> 0, commit |-> req.commit]])
+               IN IF s1.died # "" THEN Commit([node EXCEPT ![i] = s1], rpcs, orph, [kind |-> "replSend", i |-> i, j |-> j, died |-> TRUE])
+                  ELSE
+                  \/ /\ r1.mode = "probe" /\ r1.reqs = << >> /\ r1.resps = << >>
+                     /\ LET w == ReplWrite(s1, j)
+                        IN Commit([node EXCEPT ![i] = Post(MaybeLdrUpdates(w.s))], rpcs, orph, WriteEv(w, i, j, "probe"))
                   \/ /\ r1.mode = "pipe"
                      /\ Len(r1.reqs) + Len(r1.resps) < MaxInflight
                      /\ (r1.canWrite \/ r1.next <= r1.vlast \/ (r1.reqs = << >> /\ r1.resps = << >>))
                      /\ (r1.next > r1.vlast => (r1.voter \/ r1.canWrite))
-                     /\ LET req == AppendReqMsg(s1, j, TRUE)
-                            s2 == [s1 EXCEPT !.ldr.repl[j].reqs = Append(@, req), !.ldr.repl[j].next = req.reqLast + 1,
-                                             !.ldr.repl[j].canWrite = FALSE]
-                        IN Commit([node EXCEPT ![i] = Post(MaybeLdrUpdates(s2))], rpcs, orph,
-                                  [kind |-> "replSend", i |-> i, j |-> j, mode |-> "pipe",
-                                   req |-> [term |-> req.term, prev |-> req.prev, prevTerm |-> req.prevTerm, n |-> Len(req.ents), commit |-> req.commit]])
+                     /\ LET w == ReplWrite(s1, j)
+                        IN Commit([node EXCEPT ![i] = Post(MaybeLdrUpdates(w.s))], rpcs, orph, WriteEv(w, i, j, "pipe"))
     /\ UNCHANGED ctr
 
 \* the server side handles the head request of the current connection
 HandleAppend(j, req) ==
-    LET h  == OnAppendEntriesRequest(node[j], req)
+    LET h  == IF req.kind = "snap" THEN OnInstallSnapRequest(node[j], req) ELSE OnAppendEntriesRequest(node[j], req)
         s1 == IF h.s.state = "F" THEN ResetTimer(h.s) ELSE h.s
     IN [s |-> Post(s1), result |-> h.result, respTerm |-> h.s.term, respLast |-> Last(h.s)]
 
 AppendReq(i, j) ==
     /\ Up(i) /\ node[i].ldr.on /\ j \in DOMAIN node[i].ldr.repl /\ Repl(node[i], j).reqs # << >>
     /\ LET req == Head(Repl(node[i], j).reqs) IN
-       IF ~Up(j)
-       THEN Commit([node EXCEPT ![i].ldr.repl[j].reqs = << >>], rpcs, orph,
-                   [kind |-> "appendReq", i |-> i, j |-> j, lost |-> TRUE])
+       IF ~Up(j) \/ Repl(node[i], j).pdead   \* the server side of this connection died: nothing is handled any more
+       THEN Commit([node EXCEPT ![i].ldr.repl[j].reqs = Tail(@)], rpcs, orph,
+                   [kind |-> req.kind \o "Req", i |-> i, j |-> j, lost |-> TRUE])
        ELSE LET h == HandleAppend(j, req)
-                resp == [result |-> h.result, term |-> h.respTerm, last |-> h.respLast, reqLast |-> req.reqLast]
+                resp == [kind |-> req.kind, result |-> h.result, term |-> h.respTerm, last |-> h.respLast, reqLast |-> req.reqLast]
                 ns1 == [node EXCEPT ![j] = h.s]
                 ns2 == [ns1 EXCEPT ![i].ldr.repl[j].reqs = Tail(@), ![i].ldr.repl[j].resps = Append(@, resp)]
             IN Commit(ns2, rpcs, orph,
-                      [kind |-> "appendReq", i |-> i, j |-> j, result |-> h.result, respTerm |-> h.respTerm, respLast |-> h.respLast,
+                      [kind |-> req.kind \o "Req", i |-> i, j |-> j, result |-> h.result, respTerm |-> h.respTerm, respLast |-> h.respLast,
                        req |-> [term |-> req.term, prev |-> req.prev, prevTerm |-> req.prevTerm, n |-> Len(req.ents), commit |-> req.commit]])
     /\ UNCHANGED ctr
 
@@ -709,17 +795,38 @@ OrphanReq(k) ==
     /\ Orphans /\ k \in 1..Len(orph)
     /\ LET o == orph[k] IN
        IF ~Up(o.to)
-       THEN Commit(node, rpcs, DropAt(orph, k), [kind |-> "appendReq", i |-> o.from, j |-> o.to, lost |-> TRUE, orphan |-> TRUE])
+       THEN Commit(node, rpcs, DropAt(orph, k), [kind |-> o.req.kind \o "Req", i |-> o.from, j |-> o.to, lost |-> TRUE, orphan |-> TRUE])
        ELSE LET h == HandleAppend(o.to, o.req)
             IN Commit([node EXCEPT ![o.to] = h.s], rpcs, DropAt(orph, k),
-                      [kind |-> "appendReq", i |-> o.from, j |-> o.to, orphan |-> TRUE, result |-> h.result, respTerm |-> h.respTerm, respLast |-> h.respLast,
+                      [kind |-> o.req.kind \o "Req", i |-> o.from, j |-> o.to, orphan |-> TRUE, result |-> h.result, respTerm |-> h.respTerm, respLast |-> h.respLast,
                        req |-> [term |-> o.req.term, prev |-> o.req.prev, prevTerm |-> o.req.prevTerm, n |-> Len(o.req.ents), commit |-> o.req.commit]])
     /\ UNCHANGED ctr
+
+\* replicate(): after a probe response and the poll: matchIndex found -> pipeline, or snapshot if the next entry was compacted away
+AfterProbe(s, j) ==
+    IF s.died # "" THEN s
+    ELSE LET r == Repl(s, j) IN
+         IF r.rmatch + 1 = r.next
+         THEN IF r.next < r.vlast /\ (r.vnil \/ ~(r.next > r.vprev /\ r.next <= r.vlast))
+              THEN IF r.vnil THEN [s EXCEPT !.died = "replication"]
+                   ELSE [s EXCEPT !.ldr.repl[j].reqs = Append(@, SnapReqMsg(s, j)), !.ldr.repl[j].mode = "snap"]
+              ELSE [s EXCEPT !.ldr.repl[j].mode = "pipe", !.ldr.repl[j].canWrite = TRUE]
+         ELSE s
 
 \* replication.onAppendEntriesResp in probe / pipeline / drain mode
 OnAppendResp(s, j, resp) ==
     LET r == Repl(s, j) IN
-    IF r.mode = "probe"
+    IF resp.kind = "snap"
+    THEN \* sendInstallSnapReq reading its response
+         IF resp.result = "staleTerm"
+         THEN [NotifyLdr(s, [j |-> j, kind |-> "newTerm", val |-> resp.term]) EXCEPT !.ldr.repl[j].ended = TRUE]
+         ELSE IF resp.result = "success"
+         THEN \* (waits, polling leader updates, until its view covers the snapshot index)
+              LET s0 == IF resp.reqLast > r.vlast THEN Poll(s, j) ELSE s
+                  s1 == [s0 EXCEPT !.ldr.repl[j].rmatch = resp.reqLast, !.ldr.repl[j].next = resp.reqLast + 1, !.ldr.repl[j].mode = "probe"]
+              IN NotifyLdr(s1, [j |-> j, kind |-> "match", val |-> resp.reqLast])
+         ELSE ReplFailed(s, j)
+    ELSE IF r.mode = "probe"
     THEN IF resp.result = "staleTerm"
          THEN [NotifyLdr(s, [j |-> j, kind |-> "newTerm", val |-> resp.term]) EXCEPT !.ldr.repl[j].ended = TRUE]
          ELSE IF resp.result = "success"
@@ -728,15 +835,11 @@ OnAppendResp(s, j, resp) ==
                         THEN NotifyLdr([s EXCEPT !.ldr.repl[j].rmatch = reqLast], [j |-> j, kind |-> "match", val |-> reqLast])
                         ELSE s
                   s2 == Poll(s1, j)
-              IN IF Repl(s2, j).rmatch + 1 = Repl(s2, j).next
-                 THEN [s2 EXCEPT !.ldr.repl[j].mode = "pipe", !.ldr.repl[j].canWrite = TRUE]
-                 ELSE s2
+              IN AfterProbe(s2, j)
          ELSE \* prevEntryNotFound / prevTermMismatch
               IF resp.last < r.rmatch THEN ReplFailed(s, j)   \* ErrFaultyFollower
               ELSE LET s1 == Poll([s EXCEPT !.ldr.repl[j].next = Min(r.next - 1, resp.last + 1)], j)
-                   IN IF Repl(s1, j).rmatch + 1 = Repl(s1, j).next
-                      THEN [s1 EXCEPT !.ldr.repl[j].mode = "pipe", !.ldr.repl[j].canWrite = TRUE]
-                      ELSE s1
+                   IN AfterProbe(s1, j)
     ELSE IF r.mode = "pipe"
     THEN IF resp.result = "success"
          THEN IF resp.reqLast > r.rmatch
@@ -754,7 +857,7 @@ AppendResp(i, j) ==
            s1   == [s EXCEPT !.ldr.repl[j].resps = Tail(@)]
            s2   == OnAppendResp(s1, j, resp)
        IN Commit([node EXCEPT ![i] = Post(MaybeLdrUpdates(s2))], rpcs, orph,
-                 [kind |-> "appendResp", i |-> i, j |-> j, mode |-> Repl(s, j).mode, result |-> resp.result,
+                 [kind |-> resp.kind \o "Resp", i |-> i, j |-> j, mode |-> Repl(s, j).mode, result |-> resp.result,
                   respTerm |-> resp.term, respLast |-> resp.last, reqLast |-> resp.reqLast])
     /\ UNCHANGED ctr
 
@@ -824,14 +927,61 @@ Fsm(n) ==
     /\ Commit([node EXCEPT ![n] = FsmItem(node[n])], rpcs, orph, [kind |-> "fsm", n |-> n])
     /\ UNCHANGED ctr
 
-\* ---- faults ----
-\* process kill: volatile state is gone, the unflushed log tail is gone
-Crashed(s) ==
-    [s EXCEPT !.up = FALSE, !.state = "D", !.cur = "D", !.leader = None, !.commit = 0,
-              !.log = SubSeq(@, 1, s.synced - s.logPrev), !.term = s.dterm, !.vote = s.dvote,
-              !.aborted = FALSE, !.votesNeeded = 0, !.selfVote = FALSE, !.cndTransfer = FALSE,
-              !.fsmIdx = 0, !.fsmTerm = 0, !.fsmCmds = << >>, !.fsmQ = << >>, !.ldr = NoLdr, !.outbox = {}, !.done = << >>]
+\* ---- snapshots (fsm.go) ----
+\* raft.go/fsm.go onTakeSnapshot: the goroutine is handed (snapIdx + threshold, configs.Committed) NOW
+TakeSnapshotOp(n, thr) ==
+    /\ Up(n) /\ ctr.snaps < MaxSnaps
+    /\ LET s == node[n]
+           task == 2000 + ctr.snaps + 1
+       IN IF s.snapG.pc # "idle"
+          THEN Commit([node EXCEPT ![n].done = Append(@, [task |-> task, res |-> "inProgress", pos |-> 0])], rpcs, orph,
+                      [kind |-> "takeSnapshot", n |-> n, task |-> task, threshold |-> thr])
+          ELSE IF FixD4
+               THEN \* repaired: the raft goroutine queues the FSM request itself, in order with the apply requests
+                    Commit([node EXCEPT ![n].snapG = [NoSnapG EXCEPT !.pc = "asked", !.target = s.snapIdx + thr, !.task = task, !.cfg = s.cfgC],
+                                        ![n].fsmQ = Append(@, [kind |-> "snapReq", target |-> s.snapIdx + thr])], rpcs, orph,
+                           [kind |-> "takeSnapshot", n |-> n, task |-> task, threshold |-> thr])
+               ELSE Commit([node EXCEPT ![n].snapG = [NoSnapG EXCEPT !.pc = "start", !.target = s.snapIdx + thr, !.task = task, !.cfg = s.cfgC]], rpcs, orph,
+                           [kind |-> "takeSnapshot", n |-> n, task |-> task, threshold |-> thr])
+    /\ ctr' = [ctr EXCEPT !.snaps = @ + 1]
+\* doTakeSnapshot: `fsm.ch <- req`
+SnapGAsk(n) ==
+    /\ Up(n) /\ node[n].snapG.pc = "start"
+    /\ Commit([node EXCEPT ![n].snapG.pc = "asked", ![n].fsmQ = Append(@, [kind |-> "snapReq", target |-> node[n].snapG.target])], rpcs, orph,
+              [kind |-> "snapGAsk", n |-> n])
+    /\ UNCHANGED ctr
+\* doTakeSnapshot: snaps.new + Persist + sink.done (data file, then meta renamed into place; retain = 1)
+SnapGStore(n) ==
+    /\ Up(n) /\ node[n].snapG.pc \in {"got", "err"}
+    /\ LET s == node[n]
+           g == s.snapG
+       IN IF g.pc = "err" THEN Commit([node EXCEPT ![n].snapG.pc = "stored"], rpcs, orph, [kind |-> "snapGStore", n |-> n, err |-> g.err])
+          ELSE Commit([node EXCEPT ![n] = [s EXCEPT !.snapIdx = g.idx, !.snapTerm = g.term, !.snapCfg = g.cfg, !.snapCmds = g.cmds, !.snapG.pc = "stored"]],
+                      rpcs, orph, [kind |-> "snapGStore", n |-> n, index |-> g.idx])
+    /\ UNCHANGED ctr
+\* fsm.go onSnapshotTaken (stateLoop `case t := <-r.snapTakenCh`)
+OnSnapshotTaken(s) ==
+    LET g  == s.snapG
+        s0 == [s EXCEPT !.snapG = NoSnapG]
+    IN IF g.err # "" THEN [s0 EXCEPT !.done = Append(@, [task |-> g.task, res |-> g.err, pos |-> 0])]
+       ELSE LET s1 ==
+                IF HasIdx(s0, g.idx)
+                THEN LET ms == IF s0.state = "L" /\ s0.ldr.on THEN {s0.ldr.repl[j].match : j \in DOMAIN s0.ldr.repl} ELSE {}
+                         mr == IF s0.state = "L" /\ s0.ldr.on THEN {s0.ldr.repl[j].match : j \in {x \in DOMAIN s0.ldr.repl : ~s0.ldr.repl[x].noContact}} ELSE {}
+                         nowC == CanLTE(s0, Min(g.idx, IF ms = {} THEN g.idx ELSE CHOOSE m \in ms : \A x \in ms : m <= x))
+                         canC == CanLTE(s0, Min(g.idx, IF mr = {} THEN g.idx ELSE CHOOSE m \in mr : \A x \in mr : m <= x))
+                         sa == IF nowC > s0.logPrev THEN CompactLog(s0, nowC) ELSE s0
+                         \* (FixD5: after compacting at once the leader's removeLTE must follow PrevIndex)
+                         sb == IF FixD5 /\ sa.ldr.on /\ sa.ldr.removeLTE < sa.logPrev THEN [sa EXCEPT !.ldr.removeLTE = sa.logPrev] ELSE sa
+                     IN IF canC > nowC THEN NotifyFlr([sb EXCEPT !.ldr.removeLTE = canC], FALSE) ELSE sb
+                ELSE s0
+            IN [s1 EXCEPT !.done = Append(@, [task |-> g.task, res |-> "ok", pos |-> g.idx])]
+SnapshotTaken(n) ==
+    /\ Up(n) /\ node[n].snapG.pc = "stored"
+    /\ Commit([node EXCEPT ![n] = Post(OnSnapshotTaken(node[n]))], rpcs, orph, [kind |-> "snapTaken", n |-> n])
+    /\ UNCHANGED ctr
 
+\* ---- faults ----
 Crash(n) ==
     /\ node[n].up /\ ctr.crashes < MaxCrash
     /\ LET s == node[n]
@@ -840,7 +990,7 @@ Crash(n) ==
                    ELSE << >>
            \* connections whose server side was n are dead: their unhandled requests are gone
            ns1 == [m \in Node |-> IF m # n /\ node[m].ldr.on /\ n \in DOMAIN node[m].ldr.repl
-                                  THEN [node[m] EXCEPT !.ldr.repl[n].reqs = << >>] ELSE node[m]]
+                                  THEN [node[m] EXCEPT !.ldr.repl[n].reqs = << >>, !.ldr.repl[n].pdead = node[m].ldr.repl[n].up] ELSE node[m]]
        IN Commit([ns1 EXCEPT ![n] = Crashed(s)],
                  {m \in rpcs : ~(m.from = n)},
                  SelectSeq(IF Orphans THEN orph \o left ELSE orph, LAMBDA o : o.to # n),
@@ -868,7 +1018,7 @@ Restart(n) ==
     /\ UNCHANGED ctr
 
 --------------------------------------------------------------------------
-InitVal == [node |-> [n \in Node |-> InitNode(n)], ctr |-> [cmds |-> 0, crashes |-> 0, elections |-> 0, cfgReqs |-> 0]]
+InitVal == [node |-> [n \in Node |-> InitNode(n)], ctr |-> [cmds |-> 0, crashes |-> 0, elections |-> 0, cfgReqs |-> 0, snaps |-> 0]]
 Init ==
     /\ node = InitVal.node
     /\ rpcs = {} /\ orph = << >>
@@ -888,7 +1038,8 @@ Reset ==
     /\ ordc' \in (IF MaxCfgReqs > 0 THEN AllOrds ELSE {<< >>}) /\ rfc' \in (IF MaxCfgReqs > 0 THEN RoundFastSet ELSE {TRUE})
 
 Next ==
-    \/ \E n \in Node : ChangeConfigReq(n)
+    \/ \E n \in Node : ChangeConfigReq(n) \/ SnapGAsk(n) \/ SnapGStore(n) \/ SnapshotTaken(n)
+    \/ \E n \in Node, thr \in {0} : TakeSnapshotOp(n, thr)
     \/ \E n \in Node : Timeout(n) \/ SelfVote(n) \/ Client(n) \/ Fsm(n) \/ Crash(n) \/ Restart(n) \/ LdrUpdates(n)
     \/ \E m \in rpcs : RpcReq(m) \/ RpcResp(m)
     \/ \E n, p \in Node : Disconnected(n, p)
@@ -908,6 +1059,8 @@ Inv_C06 == C06_MajorityDurable(gh)
 Inv_C15 == C15_NoSelfInflictedDeath(node)
 Inv_C08 == C08_OneVoterDelta(node) /\ C08_ConfigOnlyWhenSafe(gh)
 Inv_C11 == C11_OnlyVotersCampaign(gh) /\ C11_OnlyVotersLead(gh) /\ C11_PromoteAfterRound(gh) /\ C11_StopOnlyWhenRemoved(gh) /\ C11_DemotedLeaderStepsDown(node)
+Inv_C09 == C09_SnapshotCommitted(gh, node) /\ C09_NoViewInvalidation(node) /\ C03_FsmIsCommittedPrefix(gh, node)
+Inv_C12 == C12_LabelOK(gh, node)
 Inv_C17a == C17_LeaderStickiness(gh)
 Inv_C19 == C19_Ordered(node) /\ C19_LatestIsNewest(node) /\ C19_Monotone(gh)
 
